@@ -77,6 +77,11 @@ def plan(tier, seed):
                 ys = {ld[i][1] for i in idx}
                 if len(ys) == 2:
                     yield ("small", tier, idx)
+        # long documents with large multiplicities (extreme likelihood ratios, the other end of the scope)
+        for L in (4, 9, 12, 16):
+            for copies in (1, 8, 27, 64, 128, 300):
+                for posfirst in (True, False):
+                    yield ("heavy", L, copies, posfirst)
         for text, ts in _corpus():
             yield ("shipped", text, ts)
 
@@ -88,6 +93,7 @@ def plan(tier, seed):
         "training_sets": ncorp if ncorp is not None else "n^2+n^3 minus single-class = {}".format(n**2 + n**3 - 2 * ((n // 2) ** 2 + (n // 2) ** 3)),
         "queries_per_training_set": len(_queries(tier)),
         "corpus_sentences_shipped_model": len(_corpus()),
+        "heavy_training_sets": 48,
     }
     return {"space": space, "cases": gen(), "chunk": 32, "hash_distinct": tier == "quick"}
 
@@ -117,6 +123,32 @@ def run_case(case):
 
     if case[0] == "shipped":
         return _shipped(case)
+    if case[0] == "heavy":
+        _, L, copies, posfirst = case
+        long_doc = ["r%d" % i for i in range(L)]
+        other = long_doc[: L // 2] + ["q%d" % i for i in range(L - L // 2)]
+        X = [long_doc] * copies + [other] * max(1, copies // 3) + [["z"], long_doc[:1]]
+        y = [posfirst] * copies + [not posfirst] * max(1, copies // 3) + [True, False]
+        model = train_naive_bayes(X, y)
+        ref = nbref.RefNB(X, y)
+        v = []
+        qs = [long_doc, other, long_doc[::-1], long_doc[: L // 2], long_doc + other, ["unseen"], long_doc * 3]
+        for q in qs:
+            got = model.predict_log_proba([q])[0]
+            exp = ref.log_proba(q)
+            if not (math.isfinite(got[0]) and math.isfinite(got[1])) or max(abs(got[0] - exp[0]), abs(got[1] - exp[1])) > 1e-7:
+                v.append(viol({"kind": "log_proba_mismatch", "family": "heavy"}, "document of {} rules x {} copies: query {} -> {} expected {}".format(L, copies, q, tuple(got), exp), exp, tuple(got)))
+                break
+            lo_g, lo_e = got[1] - got[0], ref.log_odds(q)
+            if abs(lo_g - lo_e) > 1e-7:
+                v.append(viol({"kind": "log_odds_mismatch", "family": "heavy"}, "document of {} rules x {} copies: query {} log-odds {} expected {}".format(L, copies, q, lo_g, lo_e), lo_e, lo_g))
+                break
+        got_b = model.predict_log_proba(qs)
+        for q, gb in zip(qs, got_b):
+            exp = ref.log_proba(q)
+            if not v and max(abs(gb[0] - exp[0]), abs(gb[1] - exp[1])) > 1e-7:
+                v.append(viol({"kind": "batch_position_changes_prediction", "family": "heavy"}, "document of {} rules x {} copies: query {} inside a batch -> {} expected {}".format(L, copies, q, tuple(gb), exp)))
+        return {"o": "heavy:" + ("ok" if not v else v[0]["sig"]["kind"]), "nt": True, "v": v[:2], "st": {"predictions": len(qs) * 2}}
     _, tier, idx = case
     ld = _labelled(tier)
     X = [ld[i][0] for i in idx]
@@ -152,6 +184,21 @@ def run_case(case):
             break
         if abs(got[0] - got[1]) > 1e-12:
             nontrivial = True
+    # batch prediction: every document of a batch gets what it gets alone, whatever stands before it in the batch
+    if not v:
+        qs = list(_q[tier])
+        for batch in (qs, qs[::-1], [qs[0], qs[-1], qs[0]] + qs[: max(1, len(qs) // 2)]):
+            got_b = model.predict_log_proba(batch)
+            if len(got_b) != len(batch):
+                v.append(viol({"kind": "batch_length"}, "batch of {} documents -> {} predictions".format(len(batch), len(got_b))))
+                break
+            for pos, (q, gb) in enumerate(zip(batch, got_b)):
+                exp = ref.log_proba(q)
+                if not (max(abs(gb[0] - exp[0]), abs(gb[1] - exp[1])) <= TOL):
+                    v.append(viol({"kind": "batch_position_changes_prediction"}, "train X={} y={}: document {} at position {} of a batch of {} -> {} expected {}".format(X, y, q, pos, len(batch), tuple(gb), exp), exp, tuple(gb)))
+                    break
+            if v:
+                break
     # score composition on a few documents x (covered, len) pairs
     if not v:
         for q in (_q[tier][0], _q[tier][len(_q[tier]) // 2], _q[tier][-1], X[0]):
